@@ -392,8 +392,10 @@ class Check:
 
     def finish(self) -> int:
         wall = time.time() - self.t0
-        REPLAY.mkdir(exist_ok=True)
-        EVIDENCE.mkdir(exist_ok=True)
+        REPLAY.mkdir(parents=True, exist_ok=True)
+        EVIDENCE.mkdir(parents=True, exist_ok=True)
+        for old in REPLAY.glob(f"{self.prop}-{self.tier}-*.json"):
+            old.unlink()
         for sig, n in sorted(self.known_hits.items()):
             f = self.findings.known[(self.prop, sig)]
             print(f"KNOWN-FINDING: property={self.prop} {sig}: {f.get('what', '')} ({n} cases)")
